@@ -10,15 +10,25 @@ from vlib import core
 from checks import parsegen
 
 THEOREMS = ["C06_subst", "C06_resolved_closed", "C06_resolve_then_reduce", "C06_missing", "C06_cycle", "C06_group", "C06_old_refuted"]
+PROPS_B = "theories/Props/C06b.v"
+THEOREMS_B = ["C06b_roundtrip_ref", "C06b_json_model_ok", "C06b_roundtrip_ref_model", "C06b_roundtrip_ref_shape", "C06b_resolve_inline",
+              "C06b_stack_irrelevant", "C06b_stack_only_cycles", "C06b_final_value_inline", "C06b_model_project_is_drive",
+              "C06b_order_independent", "C06b_result_unique", "C06b_inline_xdenote_args", "C06b_final_value_xdenote_args", "C06b_Rep_XRep",
+              "C06b_inline_xdenote", "C06b_sound_partial", "C06b_sound_partial_model", "C06b_xprint_canonical", "C06b_parse_args",
+              "C06b_sound"]
 REGISTRY = {
     "level": "proof",
     "technique": "Coq proof (populate = substitution on the denotation; resolution leaves no foreign key; rejection lemmas) + differential "
                  "correspondence of the whole loader against an executable inlining semantics",
     "text": "C06_subst: for every value and argument map populate is exactly substitution on the value's pieces, inside components at any "
             "depth; C06_resolved_closed / C06_resolve_then_reduce: after resolution no foreign key is left, for every project; C06_missing / "
-            "C06_cycle / C06_group: rejections. The full soundness statement (final values = source-level inlining semantics, independent of "
-            "declaration order) is kept as C06_sound_statement and is EVALUATED, not proved: the Coq predicate spec_C06 (source ASTs -> "
-            "expected pieces) runs on the real loader's final values for generated acyclic reference graphs (chains, arguments with "
+            "C06_cycle / C06_group: rejections. Props/C06b.v: C06b_roundtrip_ref (parse∘print for sources WITH references and argument "
+            "objects), C06b_resolve_inline (a successful resolution denotes the stack-free inlining semantics), C06b_stack_irrelevant / "
+            "C06b_stack_only_cycles (the RefCell bookkeeping only ever turns a result into a cycle error), C06b_order_independent / "
+            "C06b_result_unique (the order in which registered paths are visited does not change a successful result), C06b_sound (for "
+            "every project whose values are parses of printed well-formed sources, every final value denotes the source-level inlining "
+            "semantics xdenote, inherits walks included). The same predicate spec_C06 (source ASTs -> expected pieces) is evaluated "
+            "on the real loader's final values for generated acyclic reference graphs (chains, arguments with "
             "variables / nested $t / numbers / bools, namespaces, subkeys, nulls with inherits) and planted cycles / missing / group targets.",
     "design_ref": "DESIGN.md §5 C06",
     "note": "Trusted: Coq kernel + vm_compute; model Parser/Foreign.v tied by correspondence (h_parser project mode runs parse_locales); "
@@ -284,6 +294,20 @@ def parse_block(lines):
 def run(ctx):
     bindir = core.cargo_build("h_parser")
     ok, problems = core.coq_audit(ctx, PROPS, THEOREMS)
+    ci1 = ctx.coq_info
+    ok2, problems2 = core.coq_audit(ctx, PROPS_B, THEOREMS_B)      # soundness against the inlining semantics (Props/C06b.v)
+    ci2 = ctx.coq_info
+    ok, problems = ok and ok2, problems + problems2
+    if ci1.get("built") and ci2.get("built"):
+        import re as _re
+        closure = list(dict.fromkeys(ci1["closure"] + ci2["closure"]))
+        nq = sum(len(_re.findall(r"\bQed\.", core.strip_comments(open(core.COQ + "/" + f).read()))) for f in closure)
+        ctx.coq_info = {"built": True, "closure": closure, "theorems": ci1["theorems"] + ci2["theorems"], "qed_in_closure": nq,
+                        "assumptions": {**ci1["assumptions"], **ci2["assumptions"]},
+                        "sources_sha256": ci1["sources_sha256"] + "+" + ci2["sources_sha256"],
+                        "targets": ["theories/Props/C06.vo", "theories/Props/C06b.vo"]}
+    else:
+        ctx.coq_info = ci1 if not ci1.get("built") else ci2
     exe = os.path.join(bindir, "h_parser")
     n = 150 if ctx.quick else 1500
     root = os.path.join(ctx.work, "projects")
